@@ -253,6 +253,33 @@ Theorem C15_collapse_to_base_boundary_edge_keeps_wf2 `{Sig} : forall E n ks b0l 
 Proof. exact collapse_to_base_boundary_wf. Qed.
 Print Assumptions C15_collapse_to_base_boundary_edge_keeps_wf2.
 
+(** ... and the same boundary edge when the next side b1l of its triangle is interior, glued to q in the face
+    ... -> p0 -> q -> p1 -> ...: l, b1l and q disappear, b0l takes the place of q in the neighbouring face, nothing else
+    changes, and the map stays well formed.  On every store. *)
+Theorem C15_collapse_to_base_boundary_edge_merges `{Sig} : forall E n ks b0l l b1l b0r b1r c w cnt vid w' cnt',
+  let q := beta w 2 b1l in let p0 := beta w 0 q in let p1 := beta w 1 q in
+  NoDup [b0l; l; b1l; q; p0; p1] -> ~ In 0 [b0l; l; b1l; q; p0; p1] ->
+  beta w 1 b0l = l -> beta w 1 l = b1l -> beta w 1 b1l = b0l -> beta w 1 p0 = q -> beta w 2 l = 0 ->
+  run E (collapse_edge_to_base n ks b0l l b1l b0r 0 b1r) c w cnt = (Done vid, w', cnt') ->
+  (forall i y, beta w' i y =
+     if (y =? l) || (y =? b1l) || (y =? q) then (if i <? 3 then 0 else beta w i y)
+     else if (i =? 1) && (y =? b0l) then p1 else if (i =? 0) && (y =? b0l) then p0
+     else if (i =? 1) && (y =? p0) then b0l else if (i =? 0) && (y =? p1) then b0l
+     else beta w i y) /\
+  (forall y, unused w' y = if (y =? l) || (y =? b1l) || (y =? q) then true else unused w y).
+Proof. exact collapse_to_base_boundary_inner. Qed.
+Print Assumptions C15_collapse_to_base_boundary_edge_merges.
+
+Theorem C15_collapse_to_base_boundary_edge_merge_keeps_wf2 `{Sig} : forall E n ks b0l l b1l b0r b1r c w cnt vid w' cnt',
+  let q := beta w 2 b1l in let p0 := beta w 0 q in let p1 := beta w 1 q in
+  wf2 n w -> b0l < n ->
+  NoDup [b0l; l; b1l; q; p0; p1] -> ~ In 0 [b0l; l; b1l; q; p0; p1] ->
+  beta w 1 b0l = l -> beta w 1 l = b1l -> beta w 1 b1l = b0l -> beta w 2 l = 0 ->
+  run E (collapse_edge_to_base n ks b0l l b1l b0r 0 b1r) c w cnt = (Done vid, w', cnt') ->
+  wf2 n w'.
+Proof. exact collapse_to_base_boundary_inner_wf. Qed.
+Print Assumptions C15_collapse_to_base_boundary_edge_merge_keeps_wf2.
+
 (** Non-vacuity: the unit square split in two triangles 1 -> 2 -> 3 and 4 -> 5 -> 6 glued along 3 | 4 (the mesh of the
     repaired defect) meets the premises of the boundary theorems with (pe, e, ne) = (3, 1, 2) -- both other sides of the
     first triangle are on the boundary, pe is glued to 4 -- and those of the interior theorems with (pe, e, ne) = (1, 2, 3):
